@@ -88,6 +88,16 @@ func VerifCacheHistory() {
 			if rt.Param("ROTATE_IN_LOAD") == 1 && rt.Choose(2) == 1 {
 				ld.during = func() { cl.Rotate(); rt.Reach("rotate-in-load") } // a load is slow: the cleaner's timer fires meanwhile
 			}
+			if rt.Param("ROTATE_IN_LOAD") == 2 { // any maintenance step of the cleaner's goroutine while the loader runs
+				switch rt.Choose(4) {
+				case 1:
+					ld.during = func() { cl.Rotate(); rt.Reach("rotate-in-load") }
+				case 2:
+					ld.during = func() { cl.Rotate(); var st CleanStat; cl.Cleanup(&st) }
+				case 3:
+					ld.during = func() { cl.Rotate(); cl.CleanEmptyGenerations() }
+				}
+			}
 			if withErr {
 				rt.Assume(ld.outcome <= 2)
 			} else {
@@ -179,6 +189,37 @@ func VerifCacheHistory() {
 			}
 		}
 		rt.Assert(cl.getSize() == sum, "accounted size = sum of live entries")
+		// the same per generation: every generation the cleaner sums holds exactly the bytes of the
+		// live entries that point at it (this is what makes dropping a stale generation release
+		// exactly its entries)
+		for _, g := range cl.generations {
+			var gs uint64
+			for i, c := range caches {
+				if released[i] {
+					continue
+				}
+				for _, e := range c.payload {
+					if e.gen == g {
+						gs += e.size
+					}
+				}
+			}
+			rt.Assert(g.size.Load() == gs, "size accounted in a generation = sum of the live entries of that generation")
+		}
+		for i, c := range caches {
+			if released[i] {
+				continue
+			}
+			for _, e := range c.payload {
+				known := false
+				for _, g := range cl.generations {
+					if e.gen == g {
+						known = true
+					}
+				}
+				rt.Assert(known, "every live entry belongs to a generation the cleaner sums")
+			}
+		}
 	}
 	rt.Reach("end")
 }
